@@ -44,6 +44,10 @@ func runC05(c *mon.Ctx) {
 		if i%8 == 3 {
 			c05ProcsChange(c, r.Fork(17))
 		}
+		if i%4 == 0 {
+			c09SecondLife(c, r.Fork(18)) // a just-closed, still registered identity requested by 2-8 goroutines at once: one object
+		}
+		c05StaleHandles(c, r.Fork(19))
 	})
 }
 
@@ -751,4 +755,71 @@ func c05ProcsChange(c *mon.Ctx, r *mon.Rand) {
 		}
 	}
 	c.Event("identities-derived-again-after-a-gomaxprocs-change", int64(n))
+}
+
+// c05StaleHandles: metrics of scope A are kept by the caller; A is closed and
+// dropped by a pass; a scope B with another identity then creates metrics of
+// the same shape (same kinds, same number of buckets); the caller goes on
+// recording through A's old handles. Whatever happens to those late records,
+// nothing of them may arrive under B's identity: B's metrics show exactly what
+// was recorded on B.
+func c05StaleHandles(c *mon.Ctx, r *mon.Rand) {
+	cached := r.Bool()
+	var rec *mon.Recorder
+	opts := tally.ScopeOptions{OmitCardinalityMetrics: true}
+	if cached {
+		cr := mon.NewCachedRec(false)
+		rec, opts.CachedReporter = cr.Recorder, cr
+	} else {
+		pr := mon.NewPlainRec(false)
+		rec, opts.Reporter = pr.Recorder, pr
+	}
+	root, _ := vNewRoot(opts, 0, uint(r.Range(0, 3)))
+	nb := r.Range(1, 6)
+	spec := make(tally.ValueBuckets, nb)
+	for k := range spec {
+		spec[k] = float64(10 * (k + 1))
+	}
+	rounds := r.Range(1, 4)
+	desc := map[string]interface{}{"cached": cached, "bounds": nb, "rounds": rounds}
+	var staleH []tally.Histogram
+	var staleC []tally.Counter
+	var staleG []tally.Gauge
+	for k := 0; k < rounds; k++ {
+		a := root.Tagged(map[string]string{"scope": fmt.Sprintf("a%d", k)})
+		staleH = append(staleH, a.Histogram("h", spec))
+		staleC = append(staleC, a.Counter("c"))
+		staleG = append(staleG, a.Gauge("g"))
+		staleH[k].RecordValue(5)
+		staleC[k].Inc(1)
+		a.(io.Closer).Close()
+		tally.VerifReportPass(root) // reports A for the last time and drops it
+		bt := map[string]string{"scope": fmt.Sprintf("b%d", k)}
+		b := root.Tagged(bt)
+		bh, bc, bg := b.Histogram("h", spec), b.Counter("c"), b.Gauge("g")
+		bh.RecordValue(5)
+		bc.Inc(1)
+		bg.Update(1)
+		for _, h := range staleH {
+			h.RecordValue(5)
+			h.RecordValue(float64(10*nb) + 1)
+		}
+		for _, x := range staleC {
+			x.Inc(100)
+		}
+		for _, g := range staleG {
+			g.Update(777)
+		}
+		tally.VerifReportPass(root)
+		_, agg, _ := rec.Snapshot()
+		var hsum int64
+		for _, p := range mon.RefPairsV(spec) {
+			hsum += agg[mon.BucketKeyV("h", bt, p.Lo, p.Hi)].Sum
+		}
+		if hsum != 1 || agg[mon.IdentKey("c", bt)].Sum != 1 || agg[mon.IdentKey("g", bt)].LastBits != math.Float64bits(1) {
+			c.Violation("delivered-under-other-identity/stale-handles", map[string]interface{}{"why": fmt.Sprintf("scope %v recorded one histogram sample, one increment and the gauge value 1; delivered under its identity: %d samples, counter total %d, gauge %v - while handles of closed and dropped scopes of other identities were still being recorded on", bt, hsum, agg[mon.IdentKey("c", bt)].Sum, math.Float64frombits(agg[mon.IdentKey("g", bt)].LastBits)), "case": desc})
+			return
+		}
+	}
+	c.Event("stale-handle-rounds", int64(rounds))
 }
